@@ -55,7 +55,7 @@ def main():
         nas.append({"property_id": pid, "reason": na.get(pid, "check not built yet (work in progress); see DESIGN.md")})
     man = {
         "version": 1,
-        "setup_cmd": "python3-vt -m compileall -q pyvc contracts checks harness 2>/dev/null || true",
+        "setup_cmd": "(python3-vt -m compileall -q pyvc contracts checks harness; /venv/bin/python tools/warm_jit.py) >/dev/null 2>&1 || true",
         "hooks": {
             "guard": "UXARRAY_VERIF",
             "enable": "no source hooks: contracts are sidecar files under /verif/contracts; UXARRAY_VERIF=1 is exported by "
